@@ -9,9 +9,10 @@ claimed = {
  "C02": ("exploration", "3", "seeded simulation; Temporal's ExecutableTaskTracker rules on every target stream, owner/payload/exactly-once/order oracles"),
  "C03": ("exploration", "3", "seeded simulation; monotone/bounded online, bounded liveness in a fault-free fair tail"),
  "C04": ("fault_enumeration", "3", "seeded simulation with stream breaks/reconnects injected at arbitrary scheduling points"),
+ "C05": ("exploration", "3", "seeded simulation (in-system translation oracle through a recording ShardManager decorator) plus seeded op-sequence testing of the ring component against a reference model"),
  "C08": ("exploration", "3", "seeded simulation with overlapping stream incarnations; crash, registry and leaked-task oracles"),
 }
-pending = {k: "check under construction in this round (simulation world not built yet); will be claimed once it runs" for k in ["C05","C06","C07","C09","C10","C11","C19","C20"]}
+pending = {k: "check under construction in this round (simulation world not built yet); will be claimed once it runs" for k in ["C06","C07","C09","C10","C11","C19","C20"]}
 NA = {
  "C12": "pure function of (message, namespace mapping): no schedule, clock, fault or interleaving for a simulator to own",
  "C13": "pure function of (message, mapping, static wiring): no schedule, clock or fault can change the outcome",
